@@ -70,6 +70,15 @@ CATALOGUE = [
     '<dtml-var va><dtml-var xi>,</dtml-in>',
     '<dtml-try><dtml-var fe><dtml-except ValueError>V<dtml-except OSError>O'
     '<dtml-except>other</dtml-try><dtml-var vby>|',
+    # everything a handler can see of the error is the thread's own
+    '<dtml-try><dtml-var fe><dtml-except><dtml-var error_type>:'
+    '<dtml-var error_value>:<dtml-var error_tb></dtml-try>',
+    '<dtml-try><dtml-var fe>ok<dtml-except LookupError>L<dtml-var error_tb>'
+    '<dtml-except>E<dtml-var error_value><dtml-var error_tb></dtml-try>',
+    '<dtml-in s3><dtml-try><dtml-var fe><dtml-except>'
+    '<dtml-var error_value>|<dtml-var error_tb></dtml-try></dtml-in>',
+    '<dtml-try><dtml-raise KeyError><dtml-var sk></dtml-raise><dtml-except>'
+    '<dtml-var error_value><dtml-var error_tb></dtml-try>',
 ]
 
 
@@ -144,7 +153,7 @@ def judge(res, expected, preempted_at):
 
 
 def sweep(acc, src, syntax, i, j, stride1=1, two=False, stride2=40,
-          modes=(True, False)):
+          modes=(True, False), firsts=(0, 1)):
     """All single-preemption schedules of threads (ns i, ns j)."""
     specs = [POOL[i], POOL[j]]
     expected = [sequential(src, syntax, s) for s in specs]
@@ -157,7 +166,7 @@ def sweep(acc, src, syntax, i, j, stride1=1, two=False, stride2=40,
         if bad:
             acc.fail(bad[0], case, bad[1])
             continue
-        for first in (0, 1):
+        for first in firsts:
             other = 1 - first
             for p in range(1, steps[first], stride1):
                 segs = [[first, p], [other, -1]]
@@ -216,8 +225,10 @@ def plan(tier, seed):
     for k, src in enumerate(CATALOGUE):
         i, j = pairs[k % len(pairs)]
         for mode in (True, False):
-            shards.append(dict(kind='sweep', src=src, ns=[i, j], stride1=1,
-                               two=tier == 'thorough', modes=[mode]))
+            for first in (0, 1):
+                shards.append(dict(kind='sweep', src=src, ns=[i, j],
+                                   stride1=1, two=tier == 'thorough',
+                                   modes=[mode], firsts=[first]))
         if tier == 'thorough':
             a, b = pairs[(k + 1) % len(pairs)]
             shards.append(dict(kind='sweep', src=src, ns=[a, b], stride1=1,
@@ -225,6 +236,10 @@ def plan(tier, seed):
     n = 60 if tier == 'quick' else 1500
     for i in range(8 if tier == 'quick' else 16):
         shards.append(dict(kind='random', seed=seed * 1000 + i, n=n))
+    # longest first, so that the pool does not end on one long shard
+    slow = ('<dtml-in s3><dtml-try>', 'dtml-tree', 'sort=va>', 'start=stt')
+    shards.sort(key=lambda sh: 0 if any(x in sh.get('src', '')
+                                        for x in slow) else 1)
     return shards
 
 
@@ -233,7 +248,8 @@ def run_shard(shard):
     if shard['kind'] == 'sweep':
         sweep(acc, shard['src'], 'dtml', shard['ns'][0], shard['ns'][1],
               stride1=shard['stride1'], two=shard['two'],
-              modes=shard.get('modes', (True, False)))
+              modes=shard.get('modes', (True, False)),
+              firsts=shard.get('firsts', (0, 1)))
         return acc.result()
     strat = random_strategy()
 
